@@ -3,10 +3,13 @@
 set -e
 cd "$(dirname "$0")"
 J=${VERIF_JOBS:-16}
+python3 tools_gen.py
 cd coq
 [ -f Makefile ] && [ Makefile -nt _CoqProject ] || coq_makefile -f _CoqProject -o Makefile
-timeout 3000 make -j"$J" 2>&1 | grep -v '^COQC\|^COQDEP\|^CLEAN' || true
-test -f Extract/Extract.vo
+timeout 3000 make -j"$J" 2>&1 | grep -v '^COQC\|^COQDEP\|^CLEAN\|Closed under the global context\|Nothing to be done\|^make\[' || true
+test -f Extract/Extract.vo && test Extract/Extract.vo -nt Extract/Extract.v
+# every source must have an up-to-date .vo (make -k is not used; a failed file stops the build)
+for f in $(grep '\.v$' _CoqProject); do test -f "${f}o" || { echo "missing ${f}o"; exit 1; }; done
 cd ../ocaml
 if [ ! -x driver ] || [ model.ml -nt driver ] || [ driver.ml -nt driver ]; then
   rm -f model.mli
